@@ -658,12 +658,17 @@ def run_pimpl(pc):
         p = PInterpolate(I["PSequence"]([py_of(v) for v in pc["vals"]], 1), steps, pc["mode"])
     except StopIteration:
         return "ctor-stop"
+    except Exception as e:           # noqa: BLE001 — an exception of the implementation is an outcome, not a harness error
+        return "ctor-raised:" + type(e).__name__
     out = []
     for _ in range(pc["n"]):
         try:
             out.append(next(p))
         except StopIteration:
             out.append("stop")
+            break
+        except Exception as e:       # noqa: BLE001
+            out.append("raised:" + type(e).__name__)
             break
     return out
 
